@@ -30,6 +30,10 @@ from icalendar.cal import Calendar as ICalendar
 from icalendar.cal import Component, FreeBusy, component_factory
 from icalendar.prop import vDDDTypes, vPeriod
 
+if not hasattr(component_factory, "__getitem__"):
+    # icalendar >= 6.2: component_factory is a module, not an instance
+    component_factory = component_factory.ComponentFactory()
+
 from . import davcommon, webdav
 from .icalendar import apply_time_range_vevent, as_tz_aware_ts, expand_calendar_rrule
 
